@@ -156,8 +156,12 @@ pub async fn trigger<T: Any + Send>(t: T) {
     let (tx, rx) = oneshot::channel();
     let waker = match reaction {
         Reaction::Noop => {
-            tx.send(()).expect("Receiver is owned");
-            None
+            // Observe only: report and return without awaiting anything, so
+            // the trigger point is not a yield point (awaiting an already
+            // completed oneshot still yields once the tokio coop budget of
+            // the calling task is used up).
+            let _ = to_test.send((Box::new(t), None));
+            return;
         }
         Reaction::Suspend => Some(tx),
         Reaction::Panic => {
